@@ -2,7 +2,7 @@
 from facts import AnalysisBroken
 from model import (dstr, strip, fact_holds, mentions_field, mentions_call, mentions_var,
                    mentions_enum, const_value, walk)
-from rules import (guarded, calls_to, field_writes, who_may_call, full_range, loops_over,
+from rules import (reached_only_through, guarded, calls_to, field_writes, who_may_call, full_range, loops_over,
                    every_iteration_passes, basename, origins, is_var, is_enum, lastname,
                    dominated_by, reject_if, must_pass, reached_only_via, canon_before_intern,
                    error_discipline, fallible)
@@ -203,7 +203,13 @@ def run(ctx):
         ctx.check('C12.TA1', (new and is_new) or (old and is_same), pfi.name,
                   'include:scope-kind:%s' % ('new' if is_new else 'same' if is_same else 'other'), pfi.where(e),
                   'new_scope=%s gets %s' % (new, 'a child BindingEnv of ours' if is_new else 'our own scope' if is_same else dstr(r)))
-    ctx.floor('C12.TA1', 5)
+    # the parser of an included / subninja'd file works under the same options (-w dupbuild / phonycycle) as its parent
+    pfi = prog.fn('ManifestParser::ParseFileInclude')
+    news = [e for e in pfi.events('new') if 'ManifestParser' in (e.get('ty') or '')]
+    ctx.check('C12.TA1', len(news) == 1 and mentions_field(news[0].get('args'), 'ManifestParser::options_'), pfi.name,
+              'subparser:options-not-inherited', pfi.loc,
+              'the sub-parser is constructed with the parent\'s options_: %s' % [dstr(e.get('args')) for e in news])
+    ctx.floor('C12.TA1', 6)
 
     # ---- O2: lookup order --------------------------------------------------------------------------
     R('C12.O2', 'O', 'variable lookup order: bindings of the edge, then the rule binding evaluated '
@@ -253,7 +259,13 @@ def run(ctx):
         ctx.check('C12.O2', mentions_field(e.get('recv'), 'Edge::env_') and 'this' in dstr(e['args'][2]) and
                   mentions_call(e['args'][1], 'Rule::GetBinding') or var_named('eval')(e['args'][1]), elv.name,
                   'edge-lookup:fallback-args', elv.where(e), 'the generic lookup starts at the edge\'s scope with the rule binding')
-    ctx.floor('C12.O2', 10)
+    # a rule binding exists iff its key is in the map - an explicitly empty value still shadows outer scopes
+    rgb = prog.fn('Rule::GetBinding')
+    reached_only_through(ctx, 'C12.O2', rgb, lambda x: x['k'] == 'ret' and (const_value(x.get('e')) == 0 or dstr(x.get('e')) in ('null', 'nullptr', '0')),
+                         lambda efs: any(pol is True and 'end()' in k and ('operator==' in k or '==' in k) for k, pol, atom in efs),
+                         'Rule::GetBinding answers "no such binding" only when the key is not in bindings_',
+                         'Rule::GetBinding:null-for-present-key')
+    ctx.floor('C12.O2', 11)
 
     # ---- CF: expansion time by type --------------------------------------------------------------
     R('C12.CF', 'CF', 'file- and build-level bindings can only store an evaluated string (immediate '
